@@ -315,6 +315,10 @@ func run(c *mc.Ctx, u mc.Unit) {
 			err = a.Process(blk)
 			a.Arm(-1)
 		}
+		if a.StillLocked {
+			c.Failf(fmt.Sprintf("%s/failed-attempt-left-its-transaction-open", p.Store), "%s, fault at write %d of %d: the store is still write-locked after the failed attempt returned (busy timeout passed): its transaction was neither committed nor rolled back, no block can be processed any more", ctxt, k, K)
+			return
+		}
 		attempts++
 		ctxt += fmt.Sprintf(", %s#%d at write %d -> %v", map[bool]string{false: "fault", true: "context-cancelled"}[p.Cancel], f+1, k, err != nil)
 		if err == nil && p.Cancel {
